@@ -13,7 +13,6 @@ import (
 	"testing/synctest"
 	"time"
 
-	"github.com/libp2p/go-libp2p/core/peer"
 	rcmgr "github.com/libp2p/go-libp2p/p2p/host/resource-manager"
 	pbv2 "github.com/libp2p/go-libp2p/p2p/protocol/circuitv2/pb"
 
@@ -37,7 +36,7 @@ type concCase struct {
 }
 
 func runConcCase(t *testing.T, rng *rand.Rand, G int) (res *histResult, cc *concCase) {
-	res = &histResult{classes: map[string]int{}}
+	res = &histResult{classes: map[string]int{}, soft: map[string]int{}}
 	capv := func() int { return 1 + rng.IntN(3) }
 	cfg := baseCfg()
 	cfg.MaxRes, cfg.MaxIP, cfg.MaxASN, cfg.MaxCirc = capv()+rng.IntN(3), capv(), capv(), capv()
@@ -119,9 +118,13 @@ func runConcCase(t *testing.T, rng *rand.Rand, G int) (res *histResult, cc *conc
 		for p := range R0 {
 			F[p] = true
 		}
+		held := w.relay.VerifState().Rsvp
 		for _, op := range cc.Ops {
 			if op.Kind == "reserve" && op.res.Got && op.res.Status == pbv2.Status_OK {
 				F[op.P] = true
+			}
+			if _, has := held[peers[op.P].id]; op.Kind == "reserve" && !op.res.Got && has {
+				F[op.P] = true // granted, answer lost: the model follows the relay, the caps on F stay hard
 			}
 		}
 		count := func(set map[int]bool, extra int) (tot int, ip map[string]int, asn map[uint32]int) {
@@ -158,7 +161,7 @@ func runConcCase(t *testing.T, rng *rand.Rand, G int) (res *histResult, cc *conc
 			}
 			switch {
 			case !op.res.Got:
-				w.bad("reserve:no-response", "p%d got no answer to a concurrent RESERVE: %s", op.P, op.res.Err)
+				w.soft("refusal_status_unexpected/reserve/no-response", "p%d got no answer to a concurrent RESERVE: %s", op.P, op.res.Err)
 			case op.res.Status == pbv2.Status_OK:
 				res.classes["conc_reserve_ok"]++
 				w.checkVoucher(op.res.resp, peers[op.P].id, now.Add(cfg.TTL))
@@ -167,10 +170,10 @@ func runConcCase(t *testing.T, rng *rand.Rand, G int) (res *histResult, cc *conc
 				t2, i2, a2 := count(F, op.P)
 				a := addrs[cc.Addr[op.P]]
 				if t2 <= cfg.MaxRes && i2[a.ip] <= cfg.MaxIP && (a.asn == 0 || a2[a.asn] <= cfg.MaxASN) {
-					w.bad("reserve:refused-though-admissible", "p%d refused although even the final set of reservations plus p%d fits every cap", op.P, op.P)
+					w.soft("refused_though_admissible/reserve", "p%d refused although even the final set of reservations plus p%d fits every cap", op.P, op.P)
 				}
 			default:
-				w.bad("reserve:status", "p%d answered %s to a direct, ACL-free RESERVE", op.P, op.res.Status)
+				w.soft("refusal_status_unexpected/reserve/"+op.res.Status.String(), "p%d answered %s to a direct, ACL-free RESERVE", op.P, op.res.Status)
 			}
 		}
 		for p := range F {
@@ -188,7 +191,7 @@ func runConcCase(t *testing.T, rng *rand.Rand, G int) (res *histResult, cc *conc
 			o := op.con
 			switch {
 			case !o.Got:
-				w.bad("connect:no-response", "p%d got no answer to a concurrent CONNECT: %s", op.P, o.Err)
+				w.soft("refusal_status_unexpected/connect/no-response", "p%d got no answer to a concurrent CONNECT: %s", op.P, o.Err)
 			case o.Status == pbv2.Status_OK:
 				res.classes["conc_connect_ok"]++
 				if !F[op.D] {
@@ -213,14 +216,14 @@ func runConcCase(t *testing.T, rng *rand.Rand, G int) (res *histResult, cc *conc
 			case o.Status == pbv2.Status_NO_RESERVATION:
 				res.classes["conc_connect_no_reservation"]++
 				if R0[op.D] {
-					w.bad("connect:refused-though-admissible", "CONNECT p%d->p%d answered NO_RESERVATION, p%d held a reservation throughout", op.P, op.D, op.D)
+					w.soft("refused_though_admissible/connect", "CONNECT p%d->p%d answered NO_RESERVATION, p%d held a reservation throughout", op.P, op.D, op.D)
 				}
 				o.pe.closeBoth()
 			case o.Status == pbv2.Status_RESOURCE_LIMIT_EXCEEDED:
 				res.classes["conc_connect_limit"]++
 				o.pe.closeBoth()
 			default:
-				w.bad("connect:status", "CONNECT p%d->p%d answered %s", op.P, op.D, o.Status)
+				w.soft("refusal_status_unexpected/connect/"+o.Status.String(), "CONNECT p%d->p%d answered %s", op.P, op.D, o.Status)
 				o.pe.closeBoth()
 			}
 		}
@@ -234,7 +237,7 @@ func runConcCase(t *testing.T, rng *rand.Rand, G int) (res *histResult, cc *conc
 				_, ns := m.ends(op.P)
 				_, nd := m.ends(op.D)
 				if ns < cfg.MaxCirc && nd < cfg.MaxCirc {
-					w.bad("connect:refused-though-admissible", "CONNECT p%d->p%d answered RESOURCE_LIMIT_EXCEEDED although neither party reached MaxCircuits = %d even at the end (%d, %d)", op.P, op.D, cfg.MaxCirc, ns, nd)
+					w.soft("refused_though_admissible/connect", "CONNECT p%d->p%d answered RESOURCE_LIMIT_EXCEEDED although neither party reached MaxCircuits = %d even at the end (%d, %d)", op.P, op.D, cfg.MaxCirc, ns, nd)
 				}
 			}
 		}
@@ -319,8 +322,6 @@ func runConcCase(t *testing.T, rng *rand.Rand, G int) (res *histResult, cc *conc
 	})
 	return
 }
-
-var _ peer.ID
 
 func concurrency(t *testing.T, r *run.R, q, th int) {
 	n := r.Pick(q, th)
